@@ -1096,6 +1096,7 @@ impl Vm {
             let pending = object::PendingReturn {
                 value: return_value,
                 ip: return_ip,
+                rethrow: false,
                 frame_count: fiber.frames.len(),
                 handler_depth: fiber.exc_handlers.len(),
                 nested_trys: 0,
@@ -1108,13 +1109,13 @@ impl Vm {
     }
 
     fn end_finally_impl(&mut self) -> Result<(), Error> {
-        if self.active_fiber().handling_exception {
-            return self.unwind_stack();
-        }
-        let return_data = self.active_fiber_mut().take_return_data();
-        if let Some((value, ip)) = return_data {
-            self.push(value);
-            self.ip = ip;
+        let pending = self.active_fiber_mut().take_return_data();
+        if let Some(pending) = pending {
+            self.push(pending.value);
+            if pending.rethrow {
+                return self.unwind_stack();
+            }
+            self.ip = pending.ip;
         }
         Ok(())
     }
@@ -1135,7 +1136,6 @@ impl Vm {
     }
 
     fn throw_impl(&mut self) -> Result<(), Error> {
-        self.active_fiber_mut().handling_exception = true;
         self.active_fiber_mut().error_ip = Some(self.ip);
         self.unwind_stack()
     }
@@ -1594,9 +1594,24 @@ impl Vm {
         self.active_fiber_mut()
             .stack
             .truncate(handler.init_stack_size);
-        self.push(exc_object);
         self.active_fiber_mut().frames.truncate(handler.frame_count);
-        self.active_fiber_mut().handling_exception = handler.has_catch_block();
+        // (`has_catch_block` is true when the catch and finally targets coincide, i.e. when the
+        // statement has only a finally block.)
+        if !handler.has_catch_block() {
+            self.push(exc_object);
+        } else {
+            // The exception waits, off the operand stack, for the end of the finally block.
+            let mut fiber = self.active_fiber_mut();
+            let pending = object::PendingReturn {
+                value: exc_object,
+                ip: ptr::null(),
+                rethrow: true,
+                frame_count: handler.frame_count,
+                handler_depth: fiber.exc_handlers.len(),
+                nested_trys: 0,
+            };
+            fiber.pending_returns.push(pending);
+        }
         self.active_fiber_mut().current_frame_mut().unwrap().ip = handler.catch_ip;
         self.load_frame();
 
